@@ -1680,6 +1680,8 @@ pub unsafe fn abi_entry_light<T: AbiExportable + ?Sized>(flag: AbiProtocol) {
                     let temp;
                     if let Some(err) = err.downcast_ref::<&str>() {
                         msg = err;
+                    } else if let Some(err) = err.downcast_ref::<String>() {
+                        msg = err.as_str();
                     } else {
                         temp = format!("{:?}", err);
                         msg = &temp;
@@ -1783,6 +1785,8 @@ pub unsafe fn abi_entry<T: AbiExportableImplementation>(flag: AbiProtocol) {
                     let temp;
                     if let Some(err) = err.downcast_ref::<&str>() {
                         msg = err;
+                    } else if let Some(err) = err.downcast_ref::<String>() {
+                        msg = err.as_str();
                     } else {
                         temp = format!("{:?}", err);
                         msg = &temp;
